@@ -756,8 +756,16 @@ func (tm *TaskMaster) forkPoint(p edge.PointMessage) {
 		_ = edge.Collect(p)
 	}
 
-	for _, edge := range tm.forks[emptyMeasurementKey] {
-		_ = edge.Collect(p)
+	// A task is registered under both keys when it has a from() for this measurement
+	// and an unfiltered from(): it must still receive the point only once. A point
+	// without measurement name makes both keys equal.
+	if key != emptyMeasurementKey {
+		for id, edge := range tm.forks[emptyMeasurementKey] {
+			if _, ok := tm.forks[key][id]; ok {
+				continue
+			}
+			_ = edge.Collect(p)
+		}
 	}
 
 	c, ok := tm.forkStats[key]
